@@ -98,6 +98,16 @@ def extra(rep, cov, tier, rng):
                 for i in range(len(m) * 8):
                     e = bytearray(m); e[i // 8] ^= 1 << (i % 8)
                     calls.append(("verify", cp, [sig, bytes(e), pk])); why.append("message bit %d flipped" % i)
+                if mlen == 5:
+                    # long messages: tr || M crosses one and two SHAKE-256 blocks with tails of every length mod 8; every bit of
+                    # the last 16 bytes and of the first 2 bytes is flipped
+                    for ln in (104 + rng.randrange(8), 150 + rng.randrange(8), 2 * 136 + 9 + rng.randrange(8)):
+                        lm = bytes(rng.randrange(256) for _ in range(ln))
+                        ls = sign(cp, sk, lm)
+                        calls.append(("verify", cp, [ls, lm, pk])); why.append("GENUINE")
+                        for i in list(range(16)) + list(range(ln * 8 - 128, ln * 8)):
+                            e = bytearray(lm); e[i // 8] ^= 1 << (i % 8)
+                            calls.append(("verify", cp, [ls, bytes(e), pk])); why.append("bit %d of a %d-byte message flipped" % (i, ln))
                 calls.append(("verify", cp, [sig, m[:-1], pk])); why.append("message truncated")
                 calls.append(("verify", cp, [sig, m + b"\x00", pk])); why.append("message extended")
                 calls.append(("verify", cp, [sig, m, pk2])); why.append("other public key (other seed)")
@@ -108,6 +118,11 @@ def extra(rep, cov, tier, rng):
                 res = crate(calls)
                 for cl, w, r in zip(calls, why, res):
                     total += 1
+                    if w == "GENUINE":
+                        if r is None or r[0] != 1:
+                            rep.violation("a genuine signature on a long message does not verify (%s)" % cp,
+                                          {"cases": [{"fn": cl[0], "copy": cl[1], "args": [fmt_arg(a) for a in cl[2]]}]}, True)
+                        continue
                     if r is None or r[0] != 0:
                         rep.violation("altered input verifies: %s (%s)" % (w, cp),
                                       {"cases": [{"fn": cl[0], "copy": cl[1], "args": [fmt_arg(a) for a in cl[2]]}]}, True)
